@@ -82,6 +82,8 @@ def _plan(draw, max_len):
     args = {}
     if h not in ("all", "any") and draw(st.integers(0, 2)):
         args["drop_na"] = draw(st.booleans())
+        if draw(st.integers(0, 3)) == 0:
+            args["_flagkind"] = draw(st.sampled_from(["np", "int"]))       # np.bool_ / 0-1 instead of a Python bool
     if h == "nth":
         sizes = sorted({groups.count(g) for g in set(groups)} | {n})
         edges = [e for k in sizes for e in (-k - 1, -k, -1, 0, k - 1, k)]
@@ -187,8 +189,8 @@ def same(r, e):
     rc = build.acell(r, True) if not isinstance(r, (list, tuple)) else r
     if isinstance(e, tuple) and e[0] == "D" and e[1] == 0 and rc in (0, ("D", 0)):
         return True                               # sum of no timedeltas is the documented default 0
-    if e == MISSING:
-        return rc is None
+    if e == MISSING or (isinstance(e, float) and e != e):
+        return rc is None                          # (the mean of +inf and -inf is NaN as well)
     if rc is None:
         return False
     if isinstance(e, bool):
@@ -218,8 +220,17 @@ def nontrivial(plan):
     return False
 
 
+def _flags(args):
+    """the keyword arguments as passed: a flag may be a NumPy bool or 0 / 1 instead of a Python bool"""
+    a = {k: v for k, v in args.items() if k != "_flagkind"}
+    kind = args.get("_flagkind")
+    if kind and "drop_na" in a:
+        a["drop_na"] = {"np": np.bool_(a["drop_na"]), "int": int(a["drop_na"])}[kind]
+    return a
+
+
 def _call_vec(h, v, args):
-    a = dict(args)
+    a = _flags(args)
     f = getattr(di, h)
     if h == "nth":
         return f(v, a.pop("index"), **a)
@@ -229,7 +240,7 @@ def _call_vec(h, v, args):
 
 
 def _call_grp(h, args):
-    a = dict(args)
+    a = _flags(args)
     f = getattr(di, h)
     if h == "nth":
         return f("x", a.pop("index"), **a)
